@@ -3,6 +3,7 @@ import LdkModel.Model.Bolt11
 import LdkModel.Model.Merkle
 import LdkModel.Model.OfferMeta
 import LdkModel.Model.OfferMirror
+import LdkModel.Model.OfferReaders
 import LdkModel.Prim.Hmac
 namespace Ldk.Driver
 open Ldk Ldk.Prim.Bech32
@@ -211,6 +212,7 @@ def c18b12 : Drv where
       ((), C18.mirrorOp kind (unhex src) (unhex payer) (unhex own) (unhex expOwn) (unhex sig))
     | ["uwrite", kind, b] => ((), C18.uwriteOp kind (unhex b))
     | ["resign", kind, b, sig] => ((), C18.resignOp kind (unhex b) (unhex sig))
+    | ["readers", chain, b] => ((), OfferReaders.readersVerdict chain (unhex b))
     | ["mkeys", k, key, iv, md, pk, tbl, tlv] => ((), C18.mkeys (k == "p") (unhex key) (unhex iv) (unhex md) (unhex pk) tbl (unhex tlv))
     | ["mhmac", k, key, iv, md, tlv] => ((), C18.mhmac (k == "p") (unhex key) (unhex iv) (unhex md) (unhex tlv))
     | _ => ((), "bad-op")
